@@ -36,6 +36,9 @@ def spec(tier):
     jobs.append(dict(unit="port", entry="h_convert_freq", unwind=2, backend="cvc5int", timeout=400,
                      bounds="old/new frequency 1..256 symbolic (10^9 did not finish within 15 min), ticks unconstrained 64-bit",
                      what="aws_timestamp_convert_u64 with arbitrary frequencies, division-free floor spec"))
+    units["rem16"] = dict(harness=["C16/h_math.c"], sources=["source/error.c"], stubs=["base.c"], defines={"PORT_BITS": 8, "FREQ_MAX": "16ULL"})
+    jobs.append(dict(unit="rem16", entry="h_convert_freq_remainder", unwind=2, backend="cvc5int", timeout=400,
+                     bounds="old/new frequency 1..16 symbolic, ticks unconstrained 64-bit", what="documented remainder for arbitrary frequencies"))
     meta = dict(functions_encoded=["math.inl (sub/size/pow2/min/max)", "math.gcc_overflow.inl", "math.gcc_builtin.inl", "math.fallback.inl (renamed fb_*)",
                                    "clock.inl aws_timestamp_convert[_u64]", "math.gcc_x64_asm.inl via the asm2smt precheck (z3)"],
                 bounds="all operands full width; frequencies 1..10^9",
@@ -43,4 +46,4 @@ def spec(tier):
                 out=["math.msvc_x64.inl, math.gcc_arm64_asm.inl (other platforms)", "signed-shift UB in the portable clz/ctz is advisory",
                      "portable (division-based) mul: pairs where BOTH operands are >= 2^8 (u64) / 2^4 (u32); arbitrary frequencies above 256"],
                 assumptions=["cvc5 --solve-bv-as-int=sum is sound (guarded by mutated-spec twins that must fail)"])
-    return dict(units=units, jobs=jobs, meta=meta, prechecks=[dict(name="asm2smt: math.gcc_x64_asm.inl == spec (z3)", cmd="python3-vt $VERIF/engine/asm2smt.py", timeout=300)])
+    return dict(units=units, jobs=jobs, meta=meta, prechecks=[dict(name="asm2smt: math.gcc_x64_asm.inl == spec (z3)", cmd="python3-vt $VERIF/engine/asm2smt.py", timeout=300, violation_rc=1)])
